@@ -65,7 +65,9 @@ CLAIMS = {
              "r/s/h record per recipient in argument order; the critical (possible duplicate) flag is raised from before the "
              "final dot until the reply was read (with remote_blast). qmail-rspawn report(): every wait status (complete) and, "
              "as a bounded stand-in, every qmail-remote output of <= 8 bytes: success is never relayed unless the first "
-             "verdict record says K and the recipient record is neither s nor h.",
+             "verdict record says K and the recipient record is neither s nor h. outsmtptext()/outsafe() (loop contracts, any length): "
+             "no NUL of the server's reply text and only printable ASCII of a host name reach the NUL-separated report stream, so "
+             "reply text cannot forge a verdict record.",
         note="smtpcode() is an arbitrary-code stub in the smtp() proof and is itself proved (remote_smtpcode: code = leading "
              "three bytes, multi-line replies read exactly to the end of their last line, text bounded; reply lines with a LF "
              "among their first three bytes are outside that proof's domain); connect/DNS phase of main and timeouts "
